@@ -10,7 +10,7 @@
 //! calls the three consumers is not assumed but passed in by the orchestrator, which extracts it
 //! from the Rust source on every run (tools/props/C04.py `dispatch_order`).
 //!
-//! CASE <name> ord rcid_limit msb msu
+//! CASE <name> ord rcid_limit msb msu [f7 f8 f55]   (the last three select the model's code variant only)
 //!   ord        0 = controller, received journal, then update_largest (the code before the F22 fix)
 //!              1 = update_largest first (only a validated ACK reaches the other two)
 //!   rcid_limit active_connection_id_limit we advertise (RemoteCids)
@@ -19,7 +19,12 @@
 //!   0 ADV ms | 1 SENT n | 2 RCVD pn | 3 SENDACK | 5 CELL (a path applies for a dcid) | 7 LSETLIMIT n
 //!  10 FRAME x<hex>     one frame, parsed by be_frame(1-RTT) and dispatched
 //!  20 DUMP             sizes of the journals
-//! probes (run in a forked child under RLIMIT_AS / RLIMIT_CPU; the parent state is untouched):
+//! probes (run in a forked child; the parent state is untouched).  What ends an unbounded handler is
+//! RLIMIT_AS = 320 MiB (about 250 MiB above what the process maps anyway): deterministic, the same on a
+//! loaded machine.  RLIMIT_CPU (a quarter of the per-operation watchdog of hproto, VERIF_CASE_TIMEOUT_MS)
+//! and a wall-clock alarm (80 % of it) are only backstops that keep a child below the watchdog, so that
+//! a handler that is still busy then is reported as `-5` like one that ran out of memory instead of as
+//! a hang of the harness (measured: under heavy load the CPU time of the same child varies by a factor 9):
 //! 100 FRAME x<hex> | 101 PN width value (decode_pn + on_rcvd_pn) | 104 SETLIMIT n
 //!
 //! observation:  …words… alloc_bytes alloc_blocks cc_len        (cc_len = packets the controller tracks
@@ -112,6 +117,13 @@ unsafe extern "C" {
     fn waitpid(pid: i32, status: *mut i32, options: i32) -> i32;
     fn _exit(code: i32) -> !;
     fn setrlimit(resource: i32, rlim: *const Rlimit) -> i32;
+    fn alarm(seconds: u32) -> u32;
+}
+
+/// (CPU seconds, wall-clock seconds) one probe child may use: both below the watchdog period of `hproto::run`
+fn child_budget_s() -> (u64, u64) {
+    let limit_ms: u64 = std::env::var("VERIF_CASE_TIMEOUT_MS").ok().and_then(|s| s.parse().ok()).unwrap_or(20_000);
+    ((limit_ms / 4_000).clamp(2, 30), (limit_ms * 8 / 10 / 1000).max(2))
 }
 const RLIMIT_CPU: i32 = 0;
 const RLIMIT_AS: i32 = 9;
@@ -478,8 +490,10 @@ fn probe(st: &mut St, tag: u64, op: &Op) -> Vec<i128> {
         let pid = fork();
         if pid == 0 {
             close(fds[0]);
-            setrlimit(RLIMIT_AS, &Rlimit { cur: 768 << 20, max: 768 << 20 });
-            setrlimit(RLIMIT_CPU, &Rlimit { cur: 10, max: 10 });
+            setrlimit(RLIMIT_AS, &Rlimit { cur: 320 << 20, max: 320 << 20 });
+            let (cpu, wall) = child_budget_s();
+            setrlimit(RLIMIT_CPU, &Rlimit { cur: cpu, max: cpu });
+            alarm(wall as u32); // SIGXCPU / SIGALRM terminate the child: observation -5, like a failed allocation
             setrlimit(RLIMIT_CORE, &Rlimit { cur: 0, max: 0 });
             let v = measured(st, tag, op);
             let s = v.iter().map(|x| x.to_string()).collect::<Vec<_>>().join(" ");
@@ -509,6 +523,9 @@ fn probe(st: &mut St, tag: u64, op: &Op) -> Vec<i128> {
         waitpid(pid, &mut status, 0);
         let clean = (status & 0x7f) == 0 && ((status >> 8) & 0xff) == 0;
         if !clean || buf.is_empty() {
+            // which limit ended the child is not part of the observation; it goes to stderr for diagnosis
+            // (signal 6 = failed allocation / abort, 9 or 24 = RLIMIT_CPU, 14 = wall-clock alarm)
+            eprintln!("probe child ended abnormally: wait status {status:#x}, {} bytes of output", buf.len());
             return vec![-5, 0, 0];
         }
         let v: Vec<i128> = String::from_utf8_lossy(&buf).split_ascii_whitespace().filter_map(|t| t.parse::<i128>().ok()).collect();
